@@ -307,3 +307,131 @@ def fuzz_contract(qual, seed=0, n=300, registry=None):
             if r['confirmed']:
                 return dict(inputs=inp, native=r), tried
     return None, tried
+
+
+# ----------------------------------------------------------------------------- translation cross-check (engine in concrete mode vs CPython)
+def unlift(v, st):
+    import fractions
+    import numpy as np
+    if isinstance(v, Ref):
+        o = st.heap[v.oid]
+        if isinstance(o, ArrV):
+            if not all(isinstance(x, int) for x in o.shape):
+                raise ValueError('symbolic shape in concrete mode')
+            if o.ndim == 1:
+                return np.array([unlift(o.at(i), st) for i in range(o.shape[0])], dtype={'real': float, 'int': int, 'bool': bool}.get(o.dtype, object))
+            return np.array([[unlift(o.at(i, j), st) for j in range(o.shape[1])] for i in range(o.shape[0])],
+                            dtype={'real': float, 'int': int, 'bool': bool}.get(o.dtype, object)).reshape(o.shape)
+        if isinstance(o, ListV):
+            return [unlift(x, st) for x in o.items]
+        if isinstance(o, SymListV):
+            return [unlift(o.at(i), st) for i in range(int(o.n))]
+        if isinstance(o, DictV):
+            return {k: unlift(x, st) for k, x in o.items.items()}
+    if isinstance(v, tuple):
+        return tuple(unlift(x, st) for x in v)
+    if isinstance(v, fractions.Fraction):
+        return float(v)
+    if is_z3(v):
+        c = concrete(v)
+        if c is None:
+            raise ValueError('symbolic value in concrete mode: %s' % v)
+        return float(c) if isinstance(c, fractions.Fraction) else c
+    if v is NAN:
+        return float('nan')
+    if v is INF:
+        return float('inf')
+    return v
+
+
+def results_agree(a, b):
+    import numpy as np
+    if isinstance(a, (tuple, list)) and isinstance(b, (tuple, list)):
+        return len(a) == len(b) and all(results_agree(x, y) for x, y in zip(a, b))
+    if isinstance(a, np.ndarray) or isinstance(b, np.ndarray):
+        a, b = np.asarray(a), np.asarray(b)
+        if a.shape != b.shape:
+            return False
+        if a.dtype == object or b.dtype == object:
+            return a.tolist() == b.tolist()
+        return bool(np.allclose(a.astype(float), b.astype(float), rtol=1e-9, atol=1e-9, equal_nan=True))
+    if a is None or b is None:
+        return a is None and b is None
+    if isinstance(a, (str, bool)) or isinstance(b, (str,)):
+        return a == b
+    try:
+        a, b = float(a), float(b)
+        return (a != a and b != b) or abs(a - b) <= 1e-9 * max(1.0, abs(a), abs(b))
+    except Exception:
+        return a == b
+
+
+def concrete_run(qual, inputs, registry):
+    """execute the REAL body of `qual` with the symbolic executor on literal inputs (callees run natively)"""
+    from . import calls as _calls
+    c = registry.get(qual)
+    mod, fd = frontend.function(c.target)
+    eng = Engine(mod, fd, c.target, registry, concrete=True)
+    st = St()
+    env = {}
+    import ast
+    dflt = frontend.defaults(fd)
+    kw = {p: to_native(c.param_kinds[p], inputs[p]) for p in c.param_names if p in inputs}
+    for p in frontend.params(fd)[0]:
+        if p in kw:
+            env[p] = lift(kw[p], st)
+        elif p in dflt:
+            env[p] = ast.literal_eval(dflt[p])
+    st.env = env
+    outs = eng.run_body(frontend.docstring_stripped(fd), st)
+    if len(outs) != 1:
+        raise ValueError('%d paths in concrete mode' % len(outs))
+    st1, out = outs[0]
+    if out[0] == 'raise':
+        return ('raise', out[1])
+    return ('return', unlift(out[1], st1))
+
+
+def crosscheck(qual, seed, n, registry):
+    """-> (cases, mismatches) comparing concrete-mode execution of the engine with CPython on inputs satisfying the precondition"""
+    import random
+    from . import pools
+    c = registry.get(qual)
+    rng = random.Random('x-%s-%d' % (qual, seed))
+    f = real_function(c.target)
+    cases, bad, tried = 0, [], 0
+    gens = list(pools.function_inputs(c.target, seed))
+    rng.shuffle(gens)
+    while cases < n and tried < 60 * n:
+        tried += 1
+        if gens:
+            inp = gens.pop()
+        else:
+            inp = {p: random_value(c.param_kinds[p], rng) for p in c.param_names if c.param_kinds.get(p) is not None}
+            arrs = [p for p in inp if isinstance(inp[p], list) and inp[p] and not isinstance(inp[p][0], list)]
+            if len(arrs) > 1:
+                m = min(len(inp[p]) for p in arrs)
+                for p in arrs:
+                    inp[p] = inp[p][:m]
+        try:
+            r = replay_function(c.target, inp, registry)
+        except Exception:
+            continue
+        if not r.get('pre_ok'):
+            continue
+        kw = {p: to_native(c.param_kinds[p], inp[p]) for p in c.param_names if p in inp}
+        with warnings.catch_warnings():
+            warnings.simplefilter('ignore')
+            try:
+                want = ('return', f(**kw))
+            except Exception as ex:
+                want = ('raise', type(ex).__name__)
+        try:
+            got = concrete_run(c.target, inp, registry)
+        except Exception as ex:
+            got = ('engine-error', '%s: %s' % (type(ex).__name__, str(ex)[:120]))
+        cases += 1
+        same = got[0] == want[0] and (got[1] == want[1] if got[0] == 'raise' else results_agree(got[1], want[1]))
+        if not same:
+            bad.append(dict(inputs=inp, engine=repr(got)[:200], cpython=repr(want)[:200]))
+    return cases, bad
